@@ -376,6 +376,9 @@ func c05DirectedSeqs(tier string) []c05Directed {
 	// ---- non-canonical spellings of ABSOLUTE paths (no working directory: the kernel resolves what the client wrote)
 	out = append(out, c05NonCanonSeqs()...)
 
+	// ---- Glob pattern syntax over names that hold the magic characters (c05_globpat.go)
+	out = append(out, c05GlobSeqs()...)
+
 	// ---- large and long-named directories: listing in several READDIR batches, long NAME replies
 	counts, lens := []int{129, 1024, 1100}, []int{1, 120, 200, 255}
 	if thorough {
